@@ -25,7 +25,6 @@ fn main() {
     util::silence_panics();
     let mut rep = util::Report::default();
     let seed_env: u64 = std::env::var("VERIF_SEED").ok().and_then(|s| s.parse().ok()).unwrap_or(1);
-    let mut rng = util::Rng::new(seed_env);
     match args.get(1).map(|s| s.as_str()) {
         Some("replay") => {
             let file = std::fs::File::open(&args[2]).expect("cases file");
@@ -40,6 +39,13 @@ fn main() {
                     rep.sample(case.clone());
                 }
                 let group = case["group"].as_str().unwrap_or("").to_string();
+                // the harness-chosen data of a case are a function of the case (and VERIF_SEED) alone: TLC's workers print
+                // the cases in a different order on every run, and a verdict must not depend on that order
+                let mut h: u64 = 0xcbf2_9ce4_8422_2325;
+                for b in line.as_bytes() {
+                    h = (h ^ *b as u64).wrapping_mul(0x0000_0100_0000_01B3);
+                }
+                let mut rng = util::Rng::new(seed_env ^ h);
                 let outcome = util::guarded(|| dispatch(&group, &case, &mut rep, &mut rng));
                 if let Err(e) = outcome {
                     // A panic that escaped a handler is a harness defect, not a verdict.
